@@ -427,14 +427,19 @@ tokenise(const char *ln, size_t lz)
 /* we expect \t separation */
 	struct lst_s *r;
 
-	if (UNLIKELY((r = malloc(sizeof(*r) + lz)) == NULL)) {
+	if (UNLIKELY((r = malloc(sizeof(*r) + lz + 1U)) == NULL)) {
 		return NULL;
 	}
-	/* just have him point to something */
+	memcpy(r->str, ln, lz);
+	/* slots without a name (the 0-th in particular) point to the
+	 * empty string behind the line */
+	r->str[lz] = '\0';
+	for (size_t k = 0U; k < countof(r->s); k++) {
+		r->s[k] = r->str + lz;
+	}
 	r->s[1U] = r->str;
 	r->min = -1ULL;
 	r->max = 0ULL;
-	memcpy(r->str, ln, lz);
 	for (size_t i = 0U, j = 2U, o = 0U; i < lz && j < countof(r->s); i++) {
 		/* just map all ascii ctrl characters to NUL */
 		r->str[i] &= (char)(((unsigned char)r->str[i] < ' ') - 1U);
@@ -449,7 +454,6 @@ tokenise(const char *ln, size_t lz)
 			}
 		}
 	}
-	r->s[0U] = r->s[13U];
 	return r;
 }
 
